@@ -395,3 +395,14 @@ def remove_tags(v: AVal, tags) -> AVal:
     if out.const is not None and out.const == ("c", None) and "none" in tags:
         return BOTTOM
     return out
+
+
+def shallow(v: AVal) -> AVal:
+    """Shallow copy: a new outer object whose elements / keys are the original's."""
+    if v.is_bottom:
+        return v
+    if v.is_json or (v.types & {"list", "dict", "tuple", "set"} and v.elem is None and v.tup is None and v.org):
+        e = elem_of(v)
+        k = key_of(v) if (v.is_json or "dict" in v.types) else v.key
+        return replace(v, org=frozenset(), elem=e if not e.is_bottom else None, key=k)
+    return replace(v, org=frozenset())
